@@ -53,6 +53,13 @@ TEXT = {
         "design_ref": "DESIGN.md §5 C18", "note": RX_NOTE + " Rotation: Zlink/Model/Select.lean mirrors select_all.rs; tie of whole server runs to scan sequences is by correspondence of the global service order.",
         "technique": "Lean 4 proof (rotation-distance potential argument) on hand-written models; model-vs-implementation correspondence of the global service order plus a fairness oracle",
     },
+    "C11": {
+        "level": "PARTIAL by necessity. Machine-checked on a model of the physical receive buffer (bytes are not cleared on cursor reset; growth = possible reallocation): the property's full statement is FALSE (counterexample: two replies in separate reads, first item held), "
+                 "and the part that holds is proved (a receive that finds its frame already buffered touches neither bytes nor allocation, so items of replies that arrived together stay intact). "
+                 "The real chain reply stream is run with every item held while later ones are obtained; the model predicts exactly which held &str change (1500/20000 cases, 0 disagreements).",
+        "design_ref": "DESIGN.md §5 C11", "note": RX_NOTE + " Known finding: ReplyStream lets safe code keep a borrow of the receive buffer across later receives.",
+        "technique": "Lean 4 proof (counterexample by kernel evaluation; frame-already-buffered lemma) on a physical-buffer model; correspondence run holding borrowed items across later receives",
+    },
     "C13": {
         "level": "PARTIAL proof + exhaustive-style correspondence. Machine-checked: parsing is total with two outcomes (the model has no panic path; the real parser is run under catch_unwind on every text); the type-name and field-name lexers accept exactly "
                  "the grammar's regular expressions with longest match (soundness and completeness). The parser model is a function-by-function port (winnow combinator semantics included) that agrees with the real parser on ~65k (quick) / ~1.5M (thorough) "
